@@ -902,6 +902,27 @@ def gen_probes(rng, rules, n):
     return probes
 
 
+def retry_on_stall(fn):
+    """a per-case watchdog hit (vlib.core.HangTimeout) under machine load is retried once with the timer re-armed:
+    a genuine hang repeats and is then reported"""
+    import functools
+
+    @functools.wraps(fn)
+    def real(self, case):
+        from vlib import core
+
+        try:
+            return fn(self, case)
+        except core.HangTimeout:
+            import signal
+
+            if core.CASE_TIMEOUT_S > 0:
+                signal.setitimer(signal.ITIMER_REAL, core.CASE_TIMEOUT_S)
+            return fn(self, case)
+
+    return real
+
+
 class MatchStream(Stream):
     name = "match"
     corpus = [
@@ -995,6 +1016,7 @@ class MatchStream(Stream):
         r["methods"] = rng.choice([None, r["methods"], ["GET"], ["POST"]])
         return r
 
+    @retry_on_stall
     def real(self, case):
         m, robjs = real_map(case["cfg"], case["rules"])
         a = real_adapter(m, case["cfg"], case["adapter"])
@@ -1027,9 +1049,11 @@ class MatchStream(Stream):
                 # the slash / merged-slashes redirect is raised before conversion: its target is
                 # a path whose value the converter then rejects
                 fam = "F03c"
-            elif r[1] and out.split(" ")[0] in ("404", "405"):
+            elif r[1] is True and out.split(" ")[0] in ("404", "405", "WSM"):
                 # a rule whose regex accepts the path and whose to_python rejects it was selected:
-                # conversion happens after rule selection and the search does not backtrack
+                # conversion happens after rule selection and the search does not backtrack (the NoMatch
+                # then carries whatever the search had recorded: methods -> 405, a rule of the other
+                # protocol -> WebsocketMismatch, else NotFound)
                 fam = "F03"
             res.append((f"path {p!r} {meth}: {r[0]}", fam))
         return res
@@ -1113,6 +1137,7 @@ class KernelStream(Stream):
                 target = target + rng.choice(CTL)
             yield {"cfg": cfg, "rule": r, "target": target}
 
+    @retry_on_stall
     def real(self, case):
         m, robjs = real_map(case["cfg"], [case["rule"]])
         out = []
@@ -1368,7 +1393,7 @@ def instrumented_map(cfg, rules, nctor):
     return m, robjs
 
 
-def run_schedule(case, request_fn):
+def run_schedule_once(case, request_fn):
     """run the case's threads under its grant list on the real code.
     case["acts"]: per thread ["A", n] (Map.add of a factory with the next n rules) or a request action
     handed to request_fn(map, rule objects, action) -> callable returning the canonical outcome.
@@ -1400,6 +1425,17 @@ def run_schedule(case, request_fn):
         return s.run(fns, case["grants"])
     finally:
         _SCHED[0] = None
+
+
+def run_schedule(case, request_fn):
+    """run_schedule_once, repeated once when the scheduler itself timed out (a stalled machine): a genuine
+    deadlock repeats and is then reported"""
+    try:
+        return run_schedule_once(case, request_fn)
+    except RuntimeError as e:
+        if "forced schedule" not in str(e):
+            raise
+        return run_schedule_once(case, request_fn)
 
 
 def w_grants(gs):
@@ -1507,6 +1543,7 @@ class ScheduleStream(Stream):
 
         return mk
 
+    @retry_on_stall
     def real(self, case):
         ev, res, fin = run_schedule(case, self.request_fn(case))
         return f"{','.join(ev) if ev else '[]'} ; {'|'.join('~' if r is None else str(r) for r in res)} ; {b01(fin)}"
